@@ -257,6 +257,13 @@ func (harness) Run(cfg xplore.Config, ch vrt.Chooser, trace bool) (xplore.Outcom
 			vrt.Idle()
 			// retry never silently stops: a managed target is in a session (its
 			// manager thread parked in Recv) or a timer is armed for it
+			// a target owns at most one timer at any quiescent moment: the backoff
+			// of its retry loop, or the receive time-out of its one live stream
+			// (a timer left armed by a stream that already ended would later end
+			// a healthy successor for no reason)
+			if n := vrt.ArmedTimers(); n > len(d.targets) && !hasRace(d.ctls) {
+				viol("timers-left-armed", "round %d: %d timers are armed for %d managed target(s): a timer of a stream that already ended is still running; trace: %s", round, n, len(d.targets), e.render(d.targets[0]))
+			}
 			if vrt.ArmedTimers() == 0 {
 				for _, t := range d.targets {
 					if managed[t] && !e.inSession(t) && !hasRace(d.ctls) {
